@@ -17,6 +17,11 @@ pub struct VBlock {
     pub violating: bool,
     pub warning: bool,
     pub file: usize,
+    /// a second rule on the same block whose verdict does not depend on the block's lines: 0 none,
+    /// 1 `line-count=">=1"` (satisfied), 2 `line-count=">5"` (violated), 3 `line-pattern="[a-zA-Z]"` (satisfied),
+    /// 4 `line-pattern="^z"` (violated); dropped when the block's own validator is the same one
+    #[serde(default)]
+    pub second: u8,
 }
 
 #[derive(Clone, Debug, Serialize, Deserialize, Hash)]
@@ -27,6 +32,23 @@ pub struct FlagCase {
     pub subsets: Vec<u8>,
     /// spelling variant of the flags
     pub spelling: u8,
+    /// 0: every file is new in the diff (every block modified). k > 0: the first k % n blocks of each file (n its
+    /// number of blocks) are committed beforehand, the diff appends the rest, and every file is also passed as a
+    /// path argument: the leading blocks are in scope but untouched (their `affects` is not live)
+    #[serde(default)]
+    pub prefix: u8,
+}
+
+/// The second rule of a block, if it applies: (validator index, attribute name, value, violated).
+fn second_rule(b: &VBlock) -> Option<(usize, &'static str, &'static str, bool)> {
+    let r = match b.second {
+        1 => (4, "line-count", ">=1", false),
+        2 => (4, "line-count", ">5", true),
+        3 => (3, "line-pattern", "[a-zA-Z]", false),
+        4 => (3, "line-pattern", "^z", true),
+        _ => return None,
+    };
+    (r.0 != b.validator).then_some(r)
 }
 
 fn a(k: &str, v: &str) -> (String, Option<String>) {
@@ -71,6 +93,9 @@ fn rule_block(i: usize, b: &VBlock) -> RuleBlock {
         }
         _ => unreachable!(),
     };
+    if let Some((_, k, val, _)) = second_rule(b) {
+        attrs.push(a(k, val));
+    }
     RuleBlock { attrs, lines: lines.into_iter().map(String::from).collect(), indent: 0 }
 }
 
@@ -100,14 +125,31 @@ pub fn check(case: &FlagCase, probe: &Probe) -> Verdict {
     sb.init_repo();
     sb.write("echo.lua", super::c11::ECHO_LUA.as_bytes());
     sb.write("nil.lua", super::c11::NIL_LUA.as_bytes());
-    sb.commit_all("base");
     let mut texts = vec![];
+    let mut full: Vec<(String, String)> = vec![];
+    // blocks (indices into case.blocks) that are committed beforehand and stay untouched
+    let mut untouched: Vec<usize> = vec![];
     for f in 0..nfiles {
-        let mut rbs: Vec<RuleBlock> = case.blocks.iter().enumerate().filter(|(_, b)| b.file % nfiles == f).map(|(i, b)| rule_block(i, b)).collect();
+        let mine: Vec<usize> = case.blocks.iter().enumerate().filter(|(_, b)| b.file % nfiles == f).map(|(i, _)| i).collect();
+        let mut rbs: Vec<RuleBlock> = mine.iter().map(|i| rule_block(*i, &case.blocks[*i])).collect();
         rbs.push(RuleBlock { attrs: vec![a("name", "tgt")], lines: vec!["t".into()], indent: 0 });
         let r = render_batch(Host::Sh, &rbs);
-        sb.write(&format!("f{f}.sh"), r.text.as_bytes());
-        texts.push(format!("--- f{f}.sh ---\n{}", r.text));
+        let k = case.prefix as usize % rbs.len();
+        if case.prefix > 0 && k > 0 {
+            let head = render_batch(Host::Sh, &rbs[..k]);
+            assert!(r.text.starts_with(&head.text), "the committed part is a prefix of the file");
+            sb.write(&format!("f{f}.sh"), head.text.as_bytes());
+            untouched.extend(&mine[..k]);
+        }
+        texts.push(format!("--- f{f}.sh{} ---\n{}", if case.prefix > 0 && k > 0 { format!(" (first {k} block(s) committed beforehand)") } else { String::new() }, r.text));
+        full.push((format!("f{f}.sh"), r.text));
+    }
+    sb.commit_all("base");
+    for (p, t) in &full {
+        sb.write(p, t.as_bytes());
+    }
+    if !untouched.is_empty() {
+        probe.class("tree-with-untouched-leading-blocks(path arguments)");
     }
     let names_only = render_batch(Host::Sh, &[RuleBlock { attrs: vec![a("name", "xt")], lines: vec!["t".into()], indent: 0 }]);
     sb.write("names_only.sh", names_only.text.as_bytes());
@@ -118,8 +160,9 @@ pub fn check(case: &FlagCase, probe: &Probe) -> Verdict {
         let m = req.user_message().unwrap_or_default();
         if m.contains("BAD") { Reply::Text(format!("not satisfied: {}", m.lines().nth(1).unwrap_or(""))) } else { Reply::Text("OK".into()) }
     });
+    let paths: Vec<String> = if case.prefix > 0 { full.iter().map(|(p, _)| p.clone()).collect() } else { vec![] };
     let run_with = |args: &[String]| -> Out {
-        let argv: Vec<&str> = args.iter().map(String::as_str).collect();
+        let argv: Vec<&str> = args.iter().chain(paths.iter()).map(String::as_str).collect();
         probe.child();
         sb.bw(&BwRun::diff(&argv, diff.as_bytes()).env("BLOCKWATCH_AI_API_URL", &fake.url()).env("BLOCKWATCH_AI_API_KEY", "k").env("BLOCKWATCH_AI_MODEL", "m"))
     };
@@ -135,10 +178,17 @@ pub fn check(case: &FlagCase, probe: &Probe) -> Verdict {
         Err(e) => return Verdict::Fail(show(&format!("unrestricted run: {e}"), &[], &base)),
     };
     let mut want_counts = [0usize; 7];
-    for b in &case.blocks {
-        if b.violating {
+    for (i, b) in case.blocks.iter().enumerate() {
+        // (an untouched block's `affects` is not live)
+        if b.violating && !(VALIDATORS[b.validator] == "affects" && untouched.contains(&i)) {
             want_counts[b.validator] += 1;
         }
+        if let Some((v, _, _, true)) = second_rule(b) {
+            want_counts[v] += 1;
+        }
+    }
+    if case.blocks.iter().any(|b| second_rule(b).is_some()) {
+        probe.class("tree-with-two-rule-blocks");
     }
     let mut got_counts = [0usize; 7];
     for d in &d_all {
@@ -255,7 +305,7 @@ pub fn check(case: &FlagCase, probe: &Probe) -> Verdict {
 }
 
 pub fn case_strategy(all_subsets: bool) -> BoxedStrategy<FlagCase> {
-    let block = (0usize..7, proptest::bool::weighted(0.55), proptest::bool::weighted(0.25), 0usize..3).prop_map(|(validator, violating, warning, file)| VBlock { validator, violating, warning, file });
+    let block = (0usize..7, proptest::bool::weighted(0.55), proptest::bool::weighted(0.25), 0usize..3, prop_oneof![3 => Just(0u8), 2 => 1u8..5]).prop_map(|(validator, violating, warning, file, second)| VBlock { validator, violating, warning, file, second });
     let subsets = if all_subsets {
         Just((1u8..128).collect::<Vec<u8>>()).boxed()
     } else {
@@ -269,11 +319,11 @@ pub fn case_strategy(all_subsets: bool) -> BoxedStrategy<FlagCase> {
             v
         }).boxed()
     };
-    (proptest::collection::vec(block, 1..14), 1usize..4, subsets, 0u8..12).prop_map(|(blocks, files, subsets, spelling)| FlagCase { blocks, files, subsets, spelling }).boxed()
+    (proptest::collection::vec(block, 1..14), 1usize..4, subsets, 0u8..12, prop_oneof![2 => Just(0u8), 3 => 1u8..6]).prop_map(|(blocks, files, subsets, spelling, prefix)| FlagCase { blocks, files, subsets, spelling, prefix }).boxed()
 }
 
 pub fn run(run: &mut Run) {
-    run.rule = "random trees: 1..13 single-validator blocks (each of the seven validators violating or satisfied, error or warning severity) spread over 1..3 files in random order, all touched by a new-file git diff so affects is live (satisfied links point at the same file or at a file holding nothing but a named block), check-ai answered by a recording fake endpoint, check-lua by echo/nil scripts; per tree the unrestricted run is compared with construction and then every chosen subset S is run as -d S and as -e S (quick: all singletons, all co-singletons, the full set and 6 random subsets; thorough: all 127 non-empty subsets) in varying flag spellings (short, long=, mixed, repeated, reversed), plus 12 rejected usages (six of them around the `list` sub-command). Non-trivial tree = some validator owns exactly one block and at least three validators report.".into();
+    run.rule = "random trees: 1..13 blocks (each owned by one of the seven validators, violating or satisfied, error or warning severity; 40% carry a second, line-independent line-count / line-pattern rule, satisfied or violated) spread over 1..3 files in random order; in 40% of the trees every file is new in the git diff (every block touched, affects live everywhere), in the others the first k blocks of each file are committed beforehand, the diff appends the rest and every file is also a path argument, so that untouched blocks - whose affects is not live - precede touched ones (satisfied links point at the same file or at a file holding nothing but a named block), check-ai answered by a recording fake endpoint, check-lua by echo/nil scripts; per tree the unrestricted run is compared with construction and then every chosen subset S is run as -d S and as -e S (quick: all singletons, all co-singletons, the full set and 6 random subsets; thorough: all 127 non-empty subsets) in varying flag spellings (short, long=, mixed, repeated, reversed), plus 12 rejected usages (six of them around the `list` sub-command). Non-trivial tree = some validator owns exactly one block and at least three validators report.".into();
     run.assumptions = vec!["hash-map iteration order inside blockwatch decides which block is visited last; it is sampled by repetition, not controlled".into()];
     let thorough = run.tier == crate::engine::Tier::Thorough;
     run.shrink_iters = 40;
